@@ -10,7 +10,9 @@
 // interval below the tip, stays readable with its correct value".
 //   - the model keeps, per commit on the current chain, the full key->value content;
 //   - a prune run at tip T (interval PH) only licenses the loss of states with height <= T-PH, so the model
-//     keeps one integer `floor` = max over all prune runs of (T-PH): every current-chain state with
+//     keeps one integer `floor` = max over all prune runs of (T-PH) (bg mode: a run is recognised by the node
+//     records that disappear during a commit at height T, whatever rule made the store start it, and it
+//     licenses exactly T-PH because T is the tip at that moment): every current-chain state with
 //     height in (floor, tip] must read back exactly its model content (states are identified by the root
 //     returned at commit time; a height without state change has the root of the last commit below it);
 //   - nothing is asserted about keys absent from a state, nor about states at or below floor.
@@ -121,9 +123,12 @@ type entry struct {
 type sim struct {
 	ph    int64
 	mode  string
-	chain []entry           // commits of the current chain, ascending height
-	tip   int64             // -1 before genesis
-	floor int64             // states with height > floor are promised readable
+	chain []entry // commits of the current chain, ascending height
+	tip   int64   // -1 before genesis
+	floor int64   // states with height > floor are promised readable
+	gen   bool    // generator-side copy: in bg mode it cannot see the store, so it assumes the documented
+	// trigger (every pruneHeight-th height from 2*pruneHeight on) pruned; the oracle-side copy moves floor only
+	// when Run observed deletions (pruned), which can only be later/lower, so generated rollbacks stay valid
 	maxH  int64             // highest height ever committed
 	dirty map[int64][]entry // abandoned commits at heights not committed again since
 	held  map[string]map[string]bool
@@ -225,7 +230,7 @@ func (s *sim) valid(o Op) bool {
 	return false
 }
 
-type stepInfo struct{ recommit, equalAbandoned, recurs, leafRec, staleEmpty bool }
+type stepInfo struct{ recommit, belowTop, equalAbandoned, recurs, leafRec, staleEmpty bool }
 
 // apply advances the model by one valid op.
 func (s *sim) apply(o Op) (inf stepInfo) {
@@ -235,6 +240,7 @@ func (s *sim) apply(o Op) (inf stepInfo) {
 		content := applyBatch(s.cur(), o.KV)
 		inf.recurs = s.recurs(h, content)
 		inf.recommit = h <= s.maxH
+		inf.belowTop = h < s.maxH // the abandoned fork is still longer than the new one
 		for _, e := range s.dirty[h] {
 			if sameBatch(e.batch, o.KV) {
 				inf.equalAbandoned = true
@@ -261,9 +267,8 @@ func (s *sim) apply(o Op) (inf stepInfo) {
 		if h > s.maxH {
 			s.maxH = h
 		}
-		if s.mode == "bg" && h-s.ph > s.floor {
-			// the store's own trigger may have pruned with curHeight = h (whether it did is the code's business)
-			s.floor = h - s.ph
+		if s.gen && s.mode == "bg" && h%s.ph == 0 && h/s.ph > 1 {
+			s.pruned(h)
 		}
 	case "empty":
 		for h := range s.dirty {
@@ -281,11 +286,16 @@ func (s *sim) apply(o Op) (inf stepInfo) {
 		s.chain = s.chain[:i]
 		s.tip = o.To
 	case "prune":
-		if s.tip-s.ph > s.floor {
-			s.floor = s.tip - s.ph
-		}
+		s.pruned(s.tip)
 	}
 	return
+}
+
+// pruned records a prune run at tip t: it licenses dropping the states of heights <= t-PH and nothing else.
+func (s *sim) pruned(t int64) {
+	if t-s.ph > s.floor {
+		s.floor = t - s.ph
+	}
 }
 
 // required lists the distinct states the property promises readable: one per height in (floor, tip].
@@ -340,6 +350,7 @@ func Gen(t *rapid.T, o GenOpt) Case {
 	}
 	pool := keyPool[:rapid.IntRange(6, len(keyPool)).Draw(t, "nkeys")]
 	s := newSim(c.PH, c.Mode)
+	s.gen = true
 	uniq := 0
 	nops := rapid.IntRange(6, o.MaxOps).Draw(t, "nops")
 	kinds := []string{"commit", "commit", "commit", "commit", "commit", "commit", "empty", "rollback", "rollback", "prune", "prune", "prune", "discard"}
@@ -449,6 +460,14 @@ func Gen(t *rapid.T, o GenOpt) Case {
 				depth = int64(rapid.IntRange(1, int(s.tip-lo)).Draw(t, "deepdepth"))
 			}
 			op = Op{Op: "rollback", To: s.tip - depth}
+			if c.Mode == "bg" {
+				// reorganisation across a height at which the store's trigger fires: go back below the last
+				// multiple of pruneHeight (>= 2*pruneHeight) so that the new fork re-commits it, usually while
+				// still shorter than the abandoned one
+				if t0 := s.tip / s.ph * s.ph; t0 >= 2*s.ph && lo <= t0-1 && rapid.Bool().Draw(t, "crossTrigger") {
+					op.To = int64(rapid.IntRange(int(lo), int(t0-1)).Draw(t, "crossTo"))
+				}
+			}
 		case "prune":
 			if c.Mode != "sync" {
 				op = Op{Op: "commit", KV: genBatch()}
@@ -485,7 +504,7 @@ func isIndexKey(k string) bool {
 func Run(tb lib.TB, test string, c Case, be Backend) bool {
 	tb.Helper()
 	s := newSim(c.PH, c.Mode)
-	var prunedNodes, prunes, recommits, leafRec, rollbacks, empties int
+	var prunedNodes, prunes, recommits, leafRec, rollbacks, empties, bgPruneOnRecommit int
 	fail := func(i int, format string, a ...interface{}) {
 		cc := c
 		cc.Ops = c.Ops[:i+1]
@@ -530,7 +549,10 @@ func Run(tb lib.TB, test string, c Case, be Backend) bool {
 	}
 	for i, o := range c.Ops {
 		if !s.valid(o) {
-			continue // only reachable for hand-written cases; the generator emits valid ops only
+			// hand-written cases, or a store that pruned where the generator did not expect it: the rest of the
+			// history was generated for another model state, so it is not executed
+			lib.Class("history_cut_at_invalid_op")
+			break
 		}
 		switch o.Op {
 		case "commit":
@@ -565,8 +587,14 @@ func Run(tb lib.TB, test string, c Case, be Backend) bool {
 			}
 			if c.Mode == "bg" {
 				if n := deleted(before); n > 0 {
+					// node records disappeared during this commit: the store's own trigger ran a prune while the
+					// tip was this height, which licenses tip-PH and not a height of any abandoned fork
+					s.pruned(s.tip)
 					prunedNodes += n
 					prunes++
+					if inf.belowTop {
+						bgPruneOnRecommit++
+					}
 				}
 			}
 			check(i)
@@ -604,6 +632,7 @@ func Run(tb lib.TB, test string, c Case, be Backend) bool {
 	cls(empties > 0, "has_empty_blocks")
 	cls(leafRec > 0, "has_leaf_value_recurrence")
 	cls(prunedNodes > 0, "prune_deleted_nodes")
+	cls(bgPruneOnRecommit > 0, "bg_prune_ran_on_recommit_below_old_top")
 	cls(s.tip >= 1000000, "beyond_second_level_threshold")
 	cls(s.tip >= 3000000, "beyond_third_level_threshold")
 	for _, k := range be.Keys() {
